@@ -340,31 +340,41 @@ func (idx *RoaringMetadataIndex) queryCategorical(filter Filter) (*roaring.Bitma
 
 // queryNumeric handles numeric field queries using BSI.
 // Must be called with idx.mu held (at least read lock).
+//
+// Only the LE and GE comparisons of the bit-sliced index take the sign of both sides into
+// account. EQ, LT, GT and RANGE compare magnitudes once the stored value and the operand
+// differ in sign (eq -5 also matches 5, lt 100 misses -100), so every operator is composed
+// from LE and GE, which are exact over the whole int64 range.
 func (idx *RoaringMetadataIndex) queryNumeric(bsiIndex *bsi.BSI, filter Filter) (*roaring.Bitmap, error) {
 	switch filter.Operator {
-	case OpEqual, "": // Equality
+	case OpEqual, "": // Equality: value <= x <= value
 		value, err := toInt64(filter.Value)
 		if err != nil {
 			return nil, err
 		}
-		return bsiIndex.CompareValue(0, bsi.EQ, value, 0, nil), nil
+		result := bsiIndex.CompareValue(0, bsi.GE, value, 0, nil)
+		result.And(bsiIndex.CompareValue(0, bsi.LE, value, 0, nil))
+		return result, nil
 
-	case OpNotEqual: // Not equal
+	case OpNotEqual: // Not equal: has the field, but not value <= x <= value
 		value, err := toInt64(filter.Value)
 		if err != nil {
 			return nil, err
 		}
-		eq := bsiIndex.CompareValue(0, bsi.EQ, value, 0, nil)
+		eq := bsiIndex.CompareValue(0, bsi.GE, value, 0, nil)
+		eq.And(bsiIndex.CompareValue(0, bsi.LE, value, 0, nil))
 		result := bsiIndex.GetExistenceBitmap().Clone()
 		result.AndNot(eq)
 		return result, nil
 
-	case OpGreaterThan: // Greater than
+	case OpGreaterThan: // Greater than: x >= value but not x <= value
 		value, err := toInt64(filter.Value)
 		if err != nil {
 			return nil, err
 		}
-		return bsiIndex.CompareValue(0, bsi.GT, value, 0, nil), nil
+		result := bsiIndex.CompareValue(0, bsi.GE, value, 0, nil)
+		result.AndNot(bsiIndex.CompareValue(0, bsi.LE, value, 0, nil))
+		return result, nil
 
 	case OpGreaterThanOrEqual: // Greater than or equal
 		value, err := toInt64(filter.Value)
@@ -373,12 +383,14 @@ func (idx *RoaringMetadataIndex) queryNumeric(bsiIndex *bsi.BSI, filter Filter) 
 		}
 		return bsiIndex.CompareValue(0, bsi.GE, value, 0, nil), nil
 
-	case OpLessThan: // Less than
+	case OpLessThan: // Less than: x <= value but not x >= value
 		value, err := toInt64(filter.Value)
 		if err != nil {
 			return nil, err
 		}
-		return bsiIndex.CompareValue(0, bsi.LT, value, 0, nil), nil
+		result := bsiIndex.CompareValue(0, bsi.LE, value, 0, nil)
+		result.AndNot(bsiIndex.CompareValue(0, bsi.GE, value, 0, nil))
+		return result, nil
 
 	case OpLessThanOrEqual: // Less than or equal
 		value, err := toInt64(filter.Value)
@@ -387,7 +399,7 @@ func (idx *RoaringMetadataIndex) queryNumeric(bsiIndex *bsi.BSI, filter Filter) 
 		}
 		return bsiIndex.CompareValue(0, bsi.LE, value, 0, nil), nil
 
-	case OpRange: // Range query [value, value2]
+	case OpRange: // Range query [value, value2]: x >= value and x <= value2
 		minVal, err := toInt64(filter.Value)
 		if err != nil {
 			return nil, err
@@ -396,7 +408,9 @@ func (idx *RoaringMetadataIndex) queryNumeric(bsiIndex *bsi.BSI, filter Filter) 
 		if err != nil {
 			return nil, err
 		}
-		return bsiIndex.CompareValue(0, bsi.RANGE, minVal, maxVal, nil), nil
+		result := bsiIndex.CompareValue(0, bsi.GE, minVal, 0, nil)
+		result.And(bsiIndex.CompareValue(0, bsi.LE, maxVal, 0, nil))
+		return result, nil
 
 	default:
 		return nil, fmt.Errorf("unsupported operator for numeric field: %s", filter.Operator)
